@@ -55,8 +55,18 @@ static void any_line(char *raw, int in_len, int in_bytes, int n_max) {
   for (int i = 0; i < n_max; i++) {
     unsigned long b = IN(in_bytes + i);
     ASSUME(b <= 0xff);
+#ifdef PREFIX_LEN
+    /* boundary query: the first PREFIX_LEN bytes are the fixed significant
+     * text "mov[rax+0x000..." (it fills the line buffer up to PREFIX_LEN
+     * characters), only the tail is arbitrary: every way of reaching and
+     * crossing the end of the FILTERED_STR_LEN buffer from there */
+    if (i < PREFIX_LEN) { static const char P[] = "mov[rax+0x"; ASSUME(b == (unsigned long)(i < 10 ? P[i] : '0')); }
+#endif
     raw[i] = (char)(unsigned char)b;
   }
+#ifdef PREFIX_LEN
+  ASSUME(len >= PREFIX_LEN);
+#endif
   raw[len] = 0;
 }
 
